@@ -1,5 +1,5 @@
 /-
-  Statrs.Draft.C09.CategoricalModel (to live in Statrs/Model/) — HAND MODEL of `Categorical::new`
+  Statrs.Model.CategoricalModel (to live in Statrs/Model/) — HAND MODEL of `Categorical::new`
   (src/distribution/categorical.rs:84).
 
   The translator leaves `Categorical::new` untranslated (manifest: "list/iterator method
@@ -11,9 +11,10 @@
       reused;
     * `prob_mass_to_cdf` is `Statrs.Model.prob_mass_to_cdf` (Model/Samplers.lean);
     * `cdf_to_sf` is the generated `D.categorical.cdf_to_sf`.
-  NOT YET PINNED: this definition itself is not covered by the correspondence check (the
-  maintainer has to add `Categorical::new` to the hand-model dispatch); theorems about it are
-  tagged `rel(hand transcription)` until then.  Import-free apart from model files (no Mathlib).
+  PINNED by the `categorical` correspondence suite (Model/CatDispatch.lean, harness/src/hand.rs `cat::…`):
+  every generated method of `Categorical` is evaluated on the tables this constructor builds, for the
+  full special-value lattice of probability vectors (lengths 0–3/4) and seeded vectors, and compared bit
+  for bit with the implementation.  Import-free apart from model files (no Mathlib).
 -/
 import Statrs.Basic
 import Statrs.Gen.Types
